@@ -998,6 +998,17 @@ def check_case(case, ctx):
                     checks.append((a, _attr_is(PROP_ATTRS[a], None)))
                     ctx.label('accessor-annotation-names-nothing')
                     continue
+                mp = p_child(e['owner'], 'method', v, False)
+                if primary[0].attrs.get('introspectable') == '0':
+                    ctx.label('undecided:accessor-of-hidden-property')     # neither end is in the typelib
+                    continue
+                named = [x for x in A.values() if mp(x)]
+                if named and all(x.attrs.get('introspectable') == '0' for x in named):
+                    # the named method is not introspectable (e.g. returns an object without a transfer annotation):
+                    # it will not be in the typelib, so the property cannot refer to it
+                    checks.append((a, _attr_is(PROP_ATTRS[a], None)))
+                    ctx.label('accessor-annotation-names-hidden-method')
+                    continue
                 checks.append((a, _attr_is(PROP_ATTRS[a], v)))
             elif a == 'transfer':
                 checks.append((a, _attr_is('transfer-ownership', 'none' if v == 'floating' else v)))
@@ -1274,6 +1285,11 @@ def _rules(b, e, W, blocks, by_ident, component, A, Bi):
             for a in ('set-property', 'get-property'):
                 if _has(b, a) and e['role'] == 'method':
                     rules.append((p_child(cls, 'property', _ann(b, a), False), set(['setter', 'getter']), set()))
+            if e['role'] == 'method':
+                # whether the method is introspectable (skip, transfer on its values, types) decides whether a
+                # property of the type may keep naming it as its accessor
+                rules.append((lambda x, cls=cls: x.tag == 'property' and len(x.chain) == 2 and _is_type(x.chain[0], cls),
+                              set(['setter', 'getter']), set()))
         if any(_has(b, a) for a in ASYNC_ATTRS):
             rules.append((p_callable_any(), set(ASYNC_ATTRS.values()), set()))
     if k == 'property':
